@@ -55,6 +55,14 @@ def plan(tier, seed):
             deep = sharp and nsharp <= p["ndeep"] and kind in ("earley", "rescaled", "cky", "earleylm")
             cases.append(dict(c, mode="hist", kind=kind, hdepth=p["deep"] if deep else (p["depth"] if sharp else p["hist_depth_small"])))
     cases.append({"name": "sharp:empty-language", "rules": [], "mode": "hist", "kind": "earley", "hdepth": 2})
+    # symbol-type configurations: integer tokens whose hashes collide (hash(-1) == hash(-2)), and falsy tokens
+    for c in base:
+        if c["name"] in ("sharp:right-rec", "sharp:catalan", "sharp:nullable-pair", "sharp:anbn", "sharp:unary-chain+binary-reuse", "sharp:mutual-recursion"):
+            for kind in ("earley", "cky", "ckylm", "earleylm", "boollm-cky", "boollm-earley"):
+                cases.append(dict(c, mode="hist", kind=kind, hdepth=2, symmap={"a": -1, "b": -2}))
+                cases.append(dict(c, mode="hist", kind=kind, hdepth=2, symmap={"a": 0, "b": 1}))
+    for pool in INTERLEAVE_POOLS:
+        cases.append({"name": "interleave", "rules": [], "mode": "interleave", "pool": pool})
     for fam in ("right-rec", "anbn"):
         for kind in ("earley", "rescaled", "cky", "earleylm", "rescaledlm", "boollm-earley"):
             cases.append({"name": "long:" + fam, "rules": [], "mode": "long", "kind": kind, "family": fam})
@@ -101,7 +109,21 @@ def _col_dump_cky(c):
     return tuple((i, tuple(sorted((repr(k), repr(v)) for k, v in ch.items()))) for i, ch in c.items())
 
 
+_OPAQUE = [0]
+
+
 def dump_parser(m):
+    """Canonical dump of the parser's caches.  If the internals do not have the expected
+    shape (a refactoring), fall back to a unique token: states are then never merged
+    (more work, still exhaustive to the depth bound, never unsound)."""
+    try:
+        return _dump_parser(m)
+    except Exception:  # noqa: BLE001
+        _OPAQUE[0] += 1
+        return ("opaque", _OPAQUE[0])
+
+
+def _dump_parser(m):
     ids = {}
     cols = []
     layout = []
@@ -196,9 +218,11 @@ class OutOfDomain(Exception):
 def setup_kind(kind, rules, V):
     """returns (grammar, make, ops, apply_op, dump)"""
     n = len(rules)
-    ctx_p = list(strings_upto(sorted(V), 2)) + [("a", "a", "b"), ("a", "b", "b")]
-    V2 = sorted(set(V) | {EOS})
-    ctx_l = list(strings_upto(V2, 2)) + [("a", "a", "b"), ("a", "b", EOS)]
+    sv = sorted(V, key=repr)
+    A, B = (sv + sv)[:2]
+    ctx_p = list(strings_upto(sv, 2)) + [(A, A, B), (A, B, B)]
+    V2 = sorted(set(V) | {EOS}, key=repr)
+    ctx_l = list(strings_upto(V2, 2)) + [(A, A, B), (A, B, EOS)]
     if kind in ("earley", "cky"):
         g = gram.build(rules, Poly, gram.poly_weights(n), V=V)
     elif kind in ("boollm-earley", "boollm-cky"):
@@ -245,7 +269,7 @@ def setup_kind(kind, rules, V):
         raise KeyError(kind)
 
     if kind in ("earley", "rescaled", "cky"):
-        ops = [("call", c) for c in ctx_p] + [("ntw", c) for c in ctx_p] + [("chart", ("a", "b"))] + [("clear", None)]
+        ops = [("call", c) for c in ctx_p] + [("ntw", c) for c in ctx_p] + [("chart", (A, B))] + [("clear", None)]
 
         def apply_op(obj, op):
             o, c = op
@@ -262,7 +286,7 @@ def setup_kind(kind, rules, V):
             return ("val", None)
 
     else:
-        ops = [("p", c) for c in ctx_l] + [("lm", x) for x in list(strings_upto(sorted(V), 2))] + [("clear", None)]
+        ops = [("p", c) for c in ctx_l] + [("lm", x) for x in list(strings_upto(sv, 2))] + [("clear", None)]
 
         def apply_op(obj, op):
             o, c = op
@@ -279,7 +303,11 @@ def setup_kind(kind, rules, V):
             return ("val", None)
 
     def dump(obj):
-        return dump_parser(parser_of(obj))
+        try:
+            return dump_parser(parser_of(obj))
+        except Exception:  # noqa: BLE001
+            _OPAQUE[0] += 1
+            return ("opaque", _OPAQUE[0])
 
     return g, make, ops, apply_op, dump
 
@@ -369,6 +397,8 @@ def run_hist(case):
     V = case_terms(case)
     kind = case["kind"]
     inp0 = {"rules": case["rules"], "object": kind}
+    if case.get("symmap"):
+        inp0["symbols"] = case["symmap"]
     fails = []
     if kind == "cfg":
         g, make0, ops, apply_op, dump = setup_cfg(rules, V)
@@ -480,5 +510,107 @@ def run_long(case):
     return {"evals": evals, "nontrivial": 1, "fails": fails, "counters": {"executions": evals, "long_queries": evals}}
 
 
+INTERLEAVE_POOLS = [
+    [["S", ["a"]], ["S", ["S", "S"]], ["S", ["A"]], ["A", ["S"]], ["A", []]],
+    [["S", ["A", "b"]], ["A", ["a"]], ["A", ["A"]], ["A", []], ["S", ["S", "A"]]],
+    [["S", ["a", "S"]], ["S", []], ["B", ["b"]], ["S", ["B"]], ["B", ["S", "B"]]],
+]
+
+
+def run_interleave(case):
+    """Histories that interleave cfg.add(rule) with queries on ONE grammar object: every
+    answer must be the answer of a fresh grammar holding the same rules."""
+    pool = [(h, tuple(b)) for h, b in case["pool"]]
+    V = {"a", "b"}
+    W = gram.poly_weights(len(pool))
+    strs = [(), ("a",), ("a", "b")]
+
+    def make():
+        return CFG(Poly, "S", set(V))
+
+    def apply_builder(g, i):
+        h, b = pool[i]
+        g.add(W[i], h, *b)
+
+    def lang(h):
+        if isinstance(h, str):
+            return h
+        rr = rules_of(h)
+        out = {}
+        for x in strings_upto(sorted(h.V, key=repr), 2):
+            try:
+                w = ref_weight(rr, h.S, h.V, Poly, x, maxit=40)
+            except NoConvergence:
+                w = "diverges"
+            if w != Poly.zero:
+                out[x] = w
+        return ("chart", out)
+
+    def unary_cycle(h):
+        from vf.props.C07 import post_unary_cycle
+
+        return bool(post_unary_cycle(h))
+
+    queries = (
+        [("call", x) for x in strs]
+        + [("prefix_weight", ("a",))]
+        + [(n, None) for n in ("cnf", "trim", "cotrim", "prefix_grammar", "agenda", "has_unary_cycle", "unaryremove", "unarycycleremove", "nullaryremove", "renumber", "derivative_a", "rhs", "materialize2", "earley_a", "binarize")]
+    )
+
+    def apply_query(g, q):
+        o, c = q
+        if o == "call":
+            return guarded(lambda: norm(g(c)))
+        if o == "prefix_weight":
+            return guarded(lambda: norm(g.prefix_weight(c)))
+        if o == "agenda":
+            return guarded(lambda: norm({k: v for k, v in g.agenda().items() if k not in g.V}))
+        if o == "has_unary_cycle":
+            return guarded(lambda: ("val", g.has_unary_cycle()))
+        if o == "rhs":
+            return guarded(lambda: ("val", sorted((repr(k), sorted(map(repr, v))) for k, v in g.rhs.items() if v)))
+        if o == "materialize2":
+            return guarded(lambda: norm(dict(g.materialize(2))))
+        if o == "earley_a":
+            return guarded(lambda: norm(earley.Earley(g)(("a",))))
+        if o == "unarycycleremove":
+            r = guarded(g.unarycycleremove)
+            if not isinstance(r, str) and unary_cycle(r):
+                return "result has a unary cycle"
+            return lang(r)
+        f = {
+            "cnf": lambda: g.cnf,
+            "trim": g.trim,
+            "cotrim": g.cotrim,
+            "prefix_grammar": lambda: g.prefix_grammar,
+            "unaryremove": g.unaryremove,
+            "nullaryremove": g.nullaryremove,
+            "renumber": g.renumber,
+            "derivative_a": lambda: g.derivative("a"),
+            "binarize": g.binarize,
+        }[o]
+        return lang(guarded(f))
+
+    from genlm.grammar import cfg as cfgmod
+
+    def make_det():
+        cfgmod._gen_nt.i = 0
+        return make()
+
+    res = eh.explore_interleaved(make_det, list(range(len(pool))), queries, apply_builder, apply_query, same, depth=4 if TIER != "thorough" else 5, max_queries=2)
+    fails = []
+    seen = set()
+    for hist, have, want in res["violations"]:
+        q = queries[hist[-1][1]]
+        first_q = next(queries[i] for k, i in hist if k == "q")
+        key = (repr(q), repr(first_q))
+        if key in seen:
+            continue
+        seen.add(key)
+        pretty = [("add " + repr(case["pool"][i])) if k == "b" else repr(queries[i]) for k, i in hist]
+        fails.append(_fail("cfg: answer after add(rule) equals a fresh grammar's (no stale cache)", {"object": "cfg", "history": pretty}, have, want))
+    return {"evals": res["transitions"], "nontrivial": 1, "fails": fails, "counters": {"executions": res["transitions"], "hist_states": res["histories"], "hist_transitions": res["transitions"]}}
+
+
 def run_case(case):
-    return {"hist": run_hist, "long": run_long}[case["mode"]](case)
+    return {"hist": run_hist, "long": run_long, "interleave": run_interleave}[case["mode"]](case)
